@@ -592,3 +592,29 @@ Fixpoint hb_consts_finite (b : hb) : bool :=
   | HPushB b _ b' => hb_consts_finite b && hb_consts_finite b'
   | HUn b _ => hb_consts_finite b
   end.
+
+(* ------------------------------------------------------------------ spelling of a token list as characters
+   A metric is '#' followed by one or more decimal digits (leading zeros allowed), an operator
+   is its character; white-space may surround tokens but not split '#' from its digits. *)
+Inductive sptok := SpM (d : N) (ds : list N) | SpO (c : N) (o : oper).
+
+Definition sp_chars (t : sptok) : list N :=
+  match t with
+  | SpM d ds => 35%N :: map (fun x => (48 + x)%N) (d :: ds)
+  | SpO c _ => [c]
+  end.
+Definition sp_tok (t : sptok) : tok :=
+  match t with
+  | SpM d ds => TMetric (fold_left (fun a x => (10 * a + x)%N) ds d)
+  | SpO _ o => TOper o
+  end.
+Definition sp_ok (t : sptok) : Prop :=
+  match t with
+  | SpM d ds => Forall (fun x => (x < 10)%N) (d :: ds)
+  | SpO c o => oper_of_char c = Some o
+  end.
+Fixpoint render (l : list (list N * sptok)) (trail : list N) : list N :=
+  match l with
+  | [] => trail
+  | (ws, t) :: r => ws ++ sp_chars t ++ render r trail
+  end.
